@@ -1,11 +1,12 @@
 /-
   Hand-written support for the generated code (Gen/Code.lean): the Go operations that Lean's `Int` lacks.
-  `|` and `&` are the two's-complement operations on 64 bits; `a[i]` is total (0 outside the bounds).
+  `|` and `&` are the two's-complement operations on 64 bits; `a[i]` is total (0 outside the bounds; `a[i] = v` outside the bounds changes nothing) - Go panics there.
 -/
 namespace Ftdc.Gen.Go
 
 def or (a b : Int) : Int := (BitVec.ofInt 64 a ||| BitVec.ofInt 64 b).toInt
 def and (a b : Int) : Int := (BitVec.ofInt 64 a &&& BitVec.ofInt 64 b).toInt
 def index (l : List Int) (i : Int) : Int := if i < 0 then 0 else l.getD i.toNat 0
+def set (l : List Int) (i : Int) (v : Int) : List Int := if i < 0 then l else l.set i.toNat v
 
 end Ftdc.Gen.Go
